@@ -106,8 +106,12 @@ def nontrivial(script, outcome, nevents):
 def run_shard(shard, rec):
     rng = random.Random(shard["seed"])
     for i in range(shard["count"]):
-        g = prog.Gen(rng, profile="py")
+        # every tenth program is a large one (up to 30 operations per phase instead of 12)
+        big = i % 10 == 9
+        g = prog.Gen(rng, profile="py", max_ops=30 if big else 12)
         script = g.script()
+        if big:
+            rec.count("large_programs")
         outcome = check_script(script, rec)
         rec.count("outcome_" + outcome)
         st = prog.stats(script)
